@@ -786,6 +786,47 @@ func (c *SpecCtx) call(x *SCall) Val {
 			e.d.addAxiom("core", "def_"+sym, fmt.Sprintf("(forall ((h %s) (s Slice) (k Int)) (! (= (%s h s k) (select (select h (s_base s)) (+ (s_off s) k))) :pattern ((%s h s k))))", hsort, sym, sym))
 		}
 		return Val{T: "(" + sym + " " + h + " " + sv.T + " " + c.evalInt(x.Args[1]) + ")", Ty: et}
+	case "rawat":
+		// rawat("T", b, i): the element of type T at index i of the backing array b (element heap E:T)
+		t, err := e.resolveType(c.pkg, x.Args[0].(*SLit).Val)
+		if err != nil {
+			c.fail("%v", err)
+		}
+		return Val{T: s.readElem(t, c.evalInt(x.Args[1]), c.evalInt(x.Args[2])), Ty: t}
+	case "typeinv":
+		// typeinv("T", x): the type invariant of T holds of the term x
+		t, err := e.resolveType(c.pkg, x.Args[0].(*SLit).Val)
+		if err != nil {
+			c.fail("%v", err)
+		}
+		return Val{T: e.typeInv(t, c.eval(x.Args[1]).T), Ty: specBool}
+	case "mkslice":
+		// mkslice("[]T", base, off, len, cap)
+		t, err := e.resolveType(c.pkg, x.Args[0].(*SLit).Val)
+		if err != nil {
+			c.fail("%v", err)
+		}
+		return Val{T: "(mk_slice " + c.evalInt(x.Args[1]) + " " + c.evalInt(x.Args[2]) + " " + c.evalInt(x.Args[3]) + " " + c.evalInt(x.Args[4]) + ")", Ty: t}
+	case "rawarr":
+		// rawarr("T", b): the backing array b of elements T as a value
+		t, err := e.resolveType(c.pkg, "Arr_"+x.Args[0].(*SLit).Val)
+		if err != nil {
+			c.fail("%v", err)
+		}
+		_, _, h := s.elemHeap(t.(*SpecSort).Elem)
+		return Val{T: "(select " + h + " " + c.evalInt(x.Args[1]) + ")", Ty: t}
+	case "arrat":
+		a := c.eval(x.Args[0])
+		as, ok := a.Ty.(*SpecSort)
+		if !ok || as.Elem == nil {
+			c.fail("arrat: not an Arr value")
+		}
+		return Val{T: "(select " + a.T + " " + c.evalInt(x.Args[1]) + ")", Ty: as.Elem}
+	case "tail":
+		// tail(s, i): the slice s[i:]
+		sv := arg(0)
+		i := c.evalInt(x.Args[1])
+		return Val{T: "(mk_slice (s_base " + sv.T + ") (+ (s_off " + sv.T + ") " + i + ") (- (s_len " + sv.T + ") " + i + ") (- (s_cap " + sv.T + ") " + i + "))", Ty: sv.Ty}
 	case "dynknown":
 		// dynknown(v): the dynamic type of the interface value is known structurally on this path
 		return bval(fmt.Sprint(arg(0).Dyn != nil))
